@@ -415,6 +415,9 @@ def fixed_cases():
     out.append({"route": "moved", "src": '<x xmlns="d"/>', "child": '<b k="v"/>', "at": 0, "mapping": None})     # 13a
     out.append({"route": "parse", "src": '<r:root xmlns:r="u:r" xmlns:d="u:d"><d:item><plain/></d:item></r:root>',
                 "mapping": [["r", "u:r"], [None, "u:d"]]})
+    for parts in (("]]", ">"), ("a]", "]>b"), ("]", "]", ">"), ("data[i[0]]", "> 0")):
+        out.append({"route": "api", "mapping": None,
+                    "tree": ("tag", "", "r", [], [("text", x) for x in parts] + [("tag", "", "a", [], [("text", x) for x in parts])])})
     api = [("tag", "", "r", [], [("text", "a"), ("text", "b"), ("tag", "u1", "x", [("u2", "k", 'v"<')], [])]),
            ("tag", "u1", "r", [("", "k", "&amp;")], [("pi", "t", ""), ("comment", ""), ("text", "]]>")])]
     return out + [{"route": "api", "tree": t, "mapping": None} for t in api]
